@@ -477,6 +477,110 @@ def driver_skeleton():
     return sk.nopaque, term
 
 
+def counter_validity_table():
+    """Transformation::checkCounterValidity() evaluated for the 8 combinations of (counter > instances,
+    to-counter > instances, warn flag): -> rows (c, t, w, returns_false, sets_max_instance_error).
+    The skeletons treat `!checkCounterValidity()` as an atomic condition; this table ties that assumption to the source."""
+    src = strip_comments_strings(open(os.path.join(CD, 'Transformation.cpp')).read())
+    m = re.search(r'bool\s+Transformation::checkCounterValidity\s*\(\s*\)\s*\{', src)
+    if not m:
+        raise TranslatorError('Transformation::checkCounterValidity not found')
+    b0 = m.end() - 1
+    body = src[b0 + 1:match_close(src, b0, '{', '}')]
+    if re.search(r'\b(for|while|do|switch|goto)\b', body):
+        raise TranslatorError('checkCounterValidity: unsupported control flow')
+
+    def parse(s):
+        items, i = [], 0
+        while i < len(s):
+            if s[i].isspace() or s[i] == ';':
+                i += 1
+                continue
+            if s[i] == '{':
+                j = match_close(s, i, '{', '}')
+                items.append(('block', parse(s[i + 1:j])))
+                i = j + 1
+                continue
+            mm = re.compile(r'if\s*\(').match(s, i)
+            if mm:
+                p1 = match_close(s, mm.end() - 1, '(', ')')
+                cond = re.sub(r'\s+', '', s[mm.end():p1])
+                k = p1 + 1
+                while s[k].isspace():
+                    k += 1
+                if s[k] == '{':
+                    j = match_close(s, k, '{', '}')
+                    th = parse(s[k + 1:j])
+                    k = j + 1
+                else:
+                    j = s.index(';', k)
+                    th = parse(s[k:j + 1])
+                    k = j + 1
+                el = []
+                k2 = k
+                while k2 < len(s) and s[k2].isspace():
+                    k2 += 1
+                if s.startswith('else', k2):
+                    k2 += 4
+                    while s[k2].isspace():
+                        k2 += 1
+                    if s[k2] == '{':
+                        j = match_close(s, k2, '{', '}')
+                        el = parse(s[k2 + 1:j])
+                        k = j + 1
+                    else:
+                        j = s.index(';', k2)
+                        el = parse(s[k2:j + 1])
+                        k = j + 1
+                items.append(('if', cond, th, el))
+                i = k
+                continue
+            j = s.index(';', i)
+            items.append(('stmt', re.sub(r'\s+', '', s[i:j])))
+            i = j + 1
+        return items
+
+    prog = parse(body)
+    CONDS = {'TransformationCounter>ValidInstanceNum': 'c', 'ToCounter>ValidInstanceNum': 't', 'WarnOnCounterOutOfBounds': 'w'}
+
+    def run(items, env, st):
+        for it in items:
+            if st['ret'] is not None:
+                return
+            if it[0] == 'block':
+                run(it[1], env, st)
+            elif it[0] == 'if':
+                if it[1] not in CONDS:
+                    raise TranslatorError(f'checkCounterValidity: condition {it[1]!r}')
+                run(it[2] if env[CONDS[it[1]]] else it[3], env, st)
+            else:
+                e = it[1]
+                if e == 'returntrue':
+                    st['ret'] = True
+                elif e == 'returnfalse':
+                    st['ret'] = False
+                elif e == 'TransError=TransMaxInstanceError':
+                    st['err'] = True
+                elif e == 'TransformationCounter=ValidInstanceNum':
+                    env['c'] = False        # clamped
+                elif e == 'ToCounter=ValidInstanceNum':
+                    env['t'] = False
+                elif e.startswith('cerr<<'):
+                    pass
+                else:
+                    raise TranslatorError(f'checkCounterValidity: statement {e!r}')
+    rows = []
+    for c in (False, True):
+        for t in (False, True):
+            for w in (False, True):
+                st = {'ret': None, 'err': False}
+                run(prog, {'c': c, 't': t, 'w': w}, st)
+                if st['ret'] is None:
+                    raise TranslatorError('checkCounterValidity: falls off the end')
+                rows.append((c, t, w, st['ret'] is False, st['err']))
+    return rows
+
+
 def registrations():
     regs = []
     for f in sorted(glob.glob(os.path.join(CD, '*.cpp'))):
@@ -592,6 +696,10 @@ def generate():
     out.append(f'Definition clex_stop : Z := {c["clex_stop"]}%Z.')
     out.append('Definition mutating_helpers : list string := ' + coq_list([coq_string(x) for x in sorted(mut)]) + '.')
     out.append('Definition conditional_registrations : list string := ' + coq_list([coq_string(x) for x in conditional_registrations()], 'string') + '.')
+    b = lambda v: 'true' if v else 'false'
+    out.append('(* Transformation::checkCounterValidity: (counter > instances, to-counter > instances, warn, returns false, sets TransMaxInstanceError) *)')
+    out.append('Definition counter_validity_table : list (bool * bool * bool * bool * bool) := '
+               + coq_list(['(%s, %s, %s, %s, %s)' % tuple(b(x) for x in r) for r in counter_validity_table()]) + '.')
     dn, dterm = driver_skeleton()
     out.append(f'(* TransformationManager::doTransformation: effects = opening / writing the output *)\nDefinition driver_skeleton : nat * stmt := ({dn}, {dterm}).')
     write_if_changed('ClangDelta.v', '\n'.join(out) + '\n')
